@@ -225,6 +225,9 @@ def app_goldens(rng):
     out.append(("dhcp_zero_len_between", "DHCP", bootp + bytes([0x63, 0x82, 0x53, 0x63]) + bytes([53, 1, 1, 80, 0, 12, 3, 97, 98, 99, 255])))
     out.append(("dhcp_zero_len_last", "DHCP", bootp + bytes([0x63, 0x82, 0x53, 0x63]) + bytes([53, 1, 1, 12, 3, 97, 98, 99, 80, 0, 255])))
     out.append(("dhcp_zero_len_first_no_end", "DHCP", bootp + bytes([0x63, 0x82, 0x53, 0x63]) + bytes([80, 0, 53, 1, 5])))
+    # DHCPv6 message types above Relay-reply (Leasequery 14, Leasequery-reply 15, ... 17): client/server layout (type + transaction id)
+    for mt in (14, 15, 16, 17, 36):
+        out.append(("dhcp6_type%d" % mt, "DHCPv6", bytes([mt, 0x0a, 0x0b, 0x0c]) + struct.pack("!HH", 1, 6) + bytes([0, 1, 2, 3, 4, 5]) + struct.pack("!HH", 8, 2) + bytes([0, 9])))
     # DHCPv6 options of length 0 as well (Rapid Commit, option 14)
     out.append(("dhcp6_rapid_commit", "DHCPv6", bytes([1, 0x12, 0x34, 0x56]) + struct.pack("!HH", 14, 0) + struct.pack("!HH", 8, 2) + bytes([0, 0]) + struct.pack("!HH", 14, 0)))
     # DHCPv6: SOLICIT with client id (DUID-LL), elapsed time, option request, IA_NA with a nested address
